@@ -31,6 +31,11 @@ ARGS = {
 
 def check(ctx):
     V.check_properties_file(ctx, "Properties_%s.v" % ctx.prop)
+    if ctx.prop == "C07":
+        # static tie of Conc.overwritten_exactly_one_version to the code: RegisterPipeline performs exactly one Store and no
+        # Delete on the pipeline map (obligation over the file regenerated from the source by the translator)
+        import eng_locks
+        eng_locks.overwrite_atomic_obligation(ctx)
     run(ctx)
     ctx.assumptions += ASSUMPTIONS
 
